@@ -405,3 +405,141 @@ Proof.
   - rewrite nth_error_firstn_lt by lia. rewrite nth_error_skipn_add. f_equal. lia.
   - apply nth_error_None. rewrite firstn_length, skipn_length. lia.
 Qed.
+
+(* ============================================ ordering: UTF-8 bytes vs scalars *)
+Lemma lex_head_lt x y a b : x < y -> lex_cmp (x :: a) (y :: b) = Lt.
+Proof. intro H. cbn [lex_cmp]. now rewrite (proj2 (N.compare_lt_iff x y) H). Qed.
+
+Lemma lex_head_eq x y a b : x = y -> lex_cmp (x :: a) (y :: b) = lex_cmp a b.
+Proof. intros ->. cbn [lex_cmp]. now rewrite N.compare_refl. Qed.
+
+Lemma lex_cmp_app_same l r1 r2 : lex_cmp (l ++ r1) (l ++ r2) = lex_cmp r1 r2.
+Proof. induction l as [|x l IH]; [reflexivity|]. cbn [app]. now rewrite lex_head_eq. Qed.
+
+Lemma lex_cmp_antisym a : forall b, lex_cmp a b = CompOpp (lex_cmp b a).
+Proof.
+  induction a as [|x a IH]; intros [|y b]; cbn [lex_cmp CompOpp]; try reflexivity.
+  rewrite (N.compare_antisym x y). destruct (x ?= y); cbn [CompOpp]; auto.
+Qed.
+
+Lemma lex_cmp_refl a : lex_cmp a a = Eq.
+Proof. induction a as [|x a IH]; [reflexivity|]. now rewrite lex_head_eq. Qed.
+
+Lemma lex_cmp_eq a : forall b, lex_cmp a b = Eq <-> a = b.
+Proof.
+  induction a as [|x a IH]; intros [|y b]; cbn [lex_cmp]; split; intro H; try discriminate; try reflexivity.
+  - destruct (N.compare_spec x y) as [->| |]; try discriminate. f_equal. now apply IH.
+  - inversion H; subst. rewrite N.compare_refl. now apply IH.
+Qed.
+
+(* lexicographic order, spelled out: a proper prefix, or a first differing position *)
+Lemma lex_cmp_lt a : forall b,
+  lex_cmp a b = Lt <->
+  exists p, (exists y q, a = p /\ b = p ++ y :: q) \/
+            (exists x y q1 q2, a = p ++ x :: q1 /\ b = p ++ y :: q2 /\ x < y).
+Proof.
+  induction a as [|x a IH]; intros [|y b]; cbn [lex_cmp]; split; intro H; try discriminate.
+  - destruct H as [p [[y [q [<- Hb]]]|[x [y [q1 [q2 [Ha _]]]]]]].
+    + now destruct q.
+    + now destruct p.
+  - exists []. left. now exists y, b.
+  - reflexivity.
+  - destruct H as [p [[y [q [Ha Hb]]]|[x' [y [q1 [q2 [_ [Hb _]]]]]]]]; destruct p; discriminate.
+  - destruct (N.compare_spec x y) as [->|Hlt|Hgt]; try discriminate.
+    + apply IH in H. destruct H as [p [[y' [q [-> ->]]]|[x' [y' [q1 [q2 [-> [-> Hxy]]]]]]]].
+      * exists (y :: p). left. now exists y', q.
+      * exists (y :: p). right. now exists x', y', q1, q2.
+    + exists []. right. now exists x, y, a, b.
+  - destruct H as [p [[y' [q [Ha Hb]]]|[x' [y' [q1 [q2 [Ha [Hb Hxy]]]]]]]].
+    + subst p. cbn [app] in Hb. inversion Hb; subst. rewrite N.compare_refl.
+      apply IH. exists a. left. now exists y', q.
+    + destruct p as [|z p]; cbn [app] in Ha, Hb; inversion Ha; inversion Hb; subst.
+      * now rewrite (proj2 (N.compare_lt_iff _ _) Hxy).
+      * rewrite N.compare_refl. apply IH. exists p. right. now exists x', y', q1, q2.
+Qed.
+
+(* the digits of a code point in base 64, as the UTF-8 encoder cuts them *)
+Lemma base64_digits c :
+  c = 64 * (c / 64) + c mod 64 /\ c mod 64 < 64 /\
+  c / 64 = 64 * (c / 4096) + (c / 64) mod 64 /\ (c / 64) mod 64 < 64 /\
+  c / 4096 = 64 * (c / 262144) + (c / 4096) mod 64 /\ (c / 4096) mod 64 < 64.
+Proof.
+  assert (H64 : 64 <> 0) by discriminate.
+  repeat split.
+  - apply N.div_mod'.
+  - now apply N.mod_lt.
+  - replace (c / 4096) with (c / 64 / 64) by (rewrite N.div_div by discriminate; reflexivity).
+    apply N.div_mod'.
+  - now apply N.mod_lt.
+  - replace (c / 262144) with (c / 4096 / 64) by (rewrite N.div_div by discriminate; reflexivity).
+    apply N.div_mod'.
+  - now apply N.mod_lt.
+Qed.
+
+Ltac bytes_lt :=
+  lazymatch goal with
+  | |- lex_cmp (?x :: _) (?y :: _) = Lt =>
+      let Hlt := fresh "Hlt" in let Heq := fresh "Heq" in let Hgt := fresh "Hgt" in
+      destruct (N.lt_trichotomy x y) as [Hlt|[Heq|Hgt]];
+      [ apply lex_head_lt; exact Hlt
+      | rewrite (lex_head_eq _ _ _ _ Heq); bytes_lt
+      | exfalso; lia ]
+  | |- _ => exfalso; lia
+  end.
+
+(* UTF-8 is order preserving and prefix free: the encodings of two different code
+   points differ at a byte before either ends, in the direction of the code points *)
+Lemma utf8_bytes_lt c1 c2 r1 r2 :
+  c1 < c2 -> lex_cmp (utf8_bytes c1 ++ r1) (utf8_bytes c2 ++ r2) = Lt.
+Proof.
+  intro Hlt.
+  destruct (base64_digits c1) as (A1 & A2 & A3 & A4 & A5 & A6).
+  destruct (base64_digits c2) as (B1 & B2 & B3 & B4 & B5 & B6).
+  unfold utf8_bytes.
+  (* name the digits so that only linear facts remain *)
+  remember (c1 / 64) as q1 eqn:E; clear E. remember (q1 mod 64) as b1 eqn:E; clear E.
+  remember (c1 / 4096) as a1 eqn:E; clear E. remember (a1 mod 64) as f1 eqn:E; clear E.
+  remember (c1 / 262144) as e1 eqn:E; clear E. remember (c1 mod 64) as m1 eqn:E; clear E.
+  remember (c2 / 64) as q2 eqn:E; clear E. remember (q2 mod 64) as b2 eqn:E; clear E.
+  remember (c2 / 4096) as a2 eqn:E; clear E. remember (a2 mod 64) as f2 eqn:E; clear E.
+  remember (c2 / 262144) as e2 eqn:E; clear E. remember (c2 mod 64) as m2 eqn:E; clear E.
+  destruct (N.ltb_spec c1 128) as [H1|H1]; [|destruct (N.ltb_spec c1 2048) as [H2|H2];
+    [|destruct (N.ltb_spec c1 65536) as [H3|H3]]];
+  (destruct (N.ltb_spec c2 128) as [K1|K1]; [|destruct (N.ltb_spec c2 2048) as [K2|K2];
+    [|destruct (N.ltb_spec c2 65536) as [K3|K3]]]);
+  cbn [app]; bytes_lt.
+Qed.
+
+Lemma utf8_bytes_cmp c1 c2 r1 r2 :
+  lex_cmp (utf8_bytes c1 ++ r1) (utf8_bytes c2 ++ r2) =
+  match c1 ?= c2 with Eq => lex_cmp r1 r2 | c => c end.
+Proof.
+  destruct (N.compare_spec c1 c2) as [->|Hlt|Hgt].
+  - apply lex_cmp_app_same.
+  - now apply utf8_bytes_lt.
+  - rewrite lex_cmp_antisym, (utf8_bytes_lt c2 c1 r2 r1 Hgt). reflexivity.
+Qed.
+
+Lemma utf8_bytes_nonempty c : exists b r, utf8_bytes c = b :: r.
+Proof.
+  unfold utf8_bytes. destruct (c <? 128); [eauto|]. destruct (c <? 2048); [eauto|].
+  destruct (c <? 65536); eauto.
+Qed.
+
+(* `x < y` on &str (bytewise) is the lexicographic order on the scalar values *)
+Theorem str_cmp_code_points x : forall y, str_cmp x y = lex_cmp x y.
+Proof.
+  unfold str_cmp, str_bytes.
+  induction x as [|c x IH]; intros [|d y]; cbn [flat_map lex_cmp].
+  - reflexivity.
+  - destruct (utf8_bytes_nonempty d) as (b & r & ->). reflexivity.
+  - destruct (utf8_bytes_nonempty c) as (b & r & ->). reflexivity.
+  - rewrite utf8_bytes_cmp, IH. reflexivity.
+Qed.
+
+Corollary str_comp_spec o x y : str_comp o x y = cmp_holds o (lex_cmp x y).
+Proof. unfold str_comp. now rewrite str_cmp_code_points. Qed.
+
+Corollary str_ci_comp_spec o x y :
+  str_ci_comp o x y = cmp_holds o (lex_cmp (str_to_lowercase x) (str_to_lowercase y)).
+Proof. unfold str_ci_comp. now rewrite str_cmp_code_points. Qed.
